@@ -694,8 +694,11 @@ carquet_status_t carquet_writer_close(carquet_writer_t* writer) {
         goto cleanup;
     }
 
-    /* Flush and close */
-    fflush(writer->file);
+    /* Flush: stdio buffers most of the file, so this is where a full disk or a
+     * failing sink usually surfaces. OK must mean the bytes left the process. */
+    if (fflush(writer->file) != 0 || ferror(writer->file)) {
+        status = CARQUET_ERROR_FILE_WRITE;
+    }
 
 cleanup:
     /* Free resources */
@@ -705,7 +708,9 @@ cleanup:
     }
 
     if (writer->owns_file && writer->file) {
-        fclose(writer->file);
+        if (fclose(writer->file) != 0 && status == CARQUET_OK) {
+            status = CARQUET_ERROR_FILE_WRITE;
+        }
         writer->file = NULL;
     }
 
